@@ -89,6 +89,7 @@ type reporter struct {
 	known    map[string]int
 	fresh    []*violation
 	nfile    int
+	tag      string // distinguishes replay files of several passes of one check
 }
 
 func newReporter(prop string) *reporter {
@@ -143,7 +144,7 @@ func (r *reporter) finish() int {
 		if r.nfile > 10 {
 			break
 		}
-		p := filepath.Join(outDir, "replays", fmt.Sprintf("%s-%d-%d.json", r.prop, v.Seed, r.nfile))
+		p := filepath.Join(outDir, "replays", fmt.Sprintf("%s%s-%d-%d.json", r.prop, r.tag, v.Seed, r.nfile))
 		b, _ := json.MarshalIndent(v, "", " ")
 		if err := os.WriteFile(p, b, 0o644); err != nil {
 			fatalHarness("write replay: %v", err)
